@@ -63,6 +63,11 @@ def execSignal (tid : Nat) : M Unit := do
   match r with
   | none => pure ()
   | some f =>
+    -- what the model does not cover is not an error of the workflow: it ends the comparison of this run
+    match f with
+    | .unsupported _ => throw f
+    | .outOfFuel => throw f
+    | _ => pure ()
     let t ← getTask tid
     if t.state.isCompleted then return
     setErr tid (failToErr f)
@@ -77,8 +82,11 @@ def releaseAt (s : Sys) (i : Nat) : Sys × List Obs :=
     match s.procs.find? (·.pid == pid) with
     | none => (s, [])
     | some p =>
-      let (s', obs, _) := onProc s p tid (execSignal tid)
-      (s', obs)
+      let (s', obs, f) := onProc s p tid (execSignal tid)
+      match f with
+      | some (.unsupported w) => (s', obs ++ [.res false s!"unsupported:{w}"])
+      | some .outOfFuel => (s', obs ++ [.res false "unsupported:out-of-fuel"])
+      | _ => (s', obs)
 
 def splitmix (x : Nat) : Nat :=
   let m := 18446744073709551616
